@@ -180,6 +180,95 @@ def shard_triples(args):
     return acc.export()
 
 
+def derived_ops():
+    """(label, function(f) -> result, model(fc) -> expected cells or None when only display-vs-runs is checked)."""
+    from curtsies.formatstring import FmtStr, fmtstr
+
+    def restyle(fc, **kw):
+        out = []
+        for c, a in fc:
+            d = dict(a)
+            d.update(kw)
+            out.append((c, C.norm_atts(d)))
+        return out
+
+    return [
+        ("f*2", lambda f: f * 2, lambda fc: fc * 2),
+        ("f*0", lambda f: f * 0, lambda fc: []),
+        ("f*3", lambda f: f * 3, lambda fc: fc * 3),
+        ("f+f", lambda f: f + f, lambda fc: fc + fc),
+        ("'q'+f", lambda f: "q" + f, lambda fc: [("q", ())] + fc),
+        ("f+'q'", lambda f: f + "q", lambda fc: fc + [("q", ())]),
+        ("f[1:]", lambda f: f[1:], lambda fc: fc[1:]),
+        ("f[:-1]", lambda f: f[:-1], lambda fc: fc[:-1]),
+        ("f[:]", lambda f: f[:], lambda fc: fc[:]),
+        ("f.copy()", lambda f: f.copy(), lambda fc: fc),
+        ("fmtstr(f)", lambda f: fmtstr(f), lambda fc: fc),
+        ("fmtstr(f,'bold')", lambda f: fmtstr(f, "bold"), lambda fc: restyle(fc, bold=True)),
+        ("fmtstr(f,bg='blue')", lambda f: fmtstr(f, bg="blue"), lambda fc: restyle(fc, bg=44)),
+        ("copy_with_new_atts(fg=32)", lambda f: f.copy_with_new_atts(fg=32), lambda fc: restyle(fc, fg=32)),
+        ("copy_with_new_atts(bold=False)", lambda f: f.copy_with_new_atts(bold=False), lambda fc: restyle(fc, bold=False)),
+        ("new_with_atts_removed('fg')", lambda f: f.new_with_atts_removed("fg"), lambda fc: [(c, tuple(p for p in a if p[0] != "fg")) for c, a in fc]),
+        ("new_with_atts_removed('bold')", lambda f: f.new_with_atts_removed("bold"), lambda fc: [(c, tuple(p for p in a if p[0] != "bold")) for c, a in fc]),
+        ("splice('Z',1)", lambda f: f.splice("Z", 1), lambda fc: fc[:1] + [("Z", ())] + fc[1:]),
+        ("append('Z')", lambda f: f.append("Z"), lambda fc: fc + [("Z", ())]),
+        ("f.join([f,f])", lambda f: f.join([f, f]), lambda fc: fc * 3),
+        ("fmtstr('-').join([f,f])", lambda f: fmtstr("-").join([f, f]), lambda fc: fc + [("-", ())] + fc),
+        ("ljust", lambda f: f.ljust(len(f) + 2), None),
+        ("rjust*", lambda f: f.rjust(len(f) + 2, "*"), None),
+        ("upper", lambda f: f.upper(), None),
+        ("from_str(str(f))", lambda f: FmtStr.from_str(str(f)), lambda fc: fc),
+        ("width_aware_slice(0:2)", lambda f: f.width_aware_slice(slice(0, 2)), lambda fc: fc[:2]),
+    ]
+
+
+WARM = ("cold", "str", "all")
+
+
+def shard_derived(args):
+    """Values produced by the public operations from operands that were (or were not) rendered before:
+    the displayed string of the result must show exactly the result's characters and formatting."""
+    tier, seed, idx = args
+    acc = Acc(seed=seed)
+    ops = derived_ops()
+    k, L = (3, 2)
+    for i, spec in enumerate(C.layouts(k, L)):
+        if i % 64 != idx:
+            continue
+        for oi, (label, fn, model) in enumerate(ops):
+            for warm in WARM:
+                f = C.build(spec)
+                if warm in ("str", "all"):
+                    str(f)
+                if warm == "all":
+                    len(f), f.s, f.width
+                fc = C.spec_cells(spec)
+                case = {"kind": "derived", "f": C.show_spec(spec), "op": label, "operand_observed_first": warm}
+                acc.case(bool(fc), key=("d", spec, oi, warm), sample=case)
+                try:
+                    r = fn(f)
+                    s = str(r)
+                except Exception as ex:  # noqa
+                    if len(spec) == 0 and label in ("ljust", "rjust*", "upper"):
+                        continue  # shared_atts of the zero-run value: outside C01
+                    acc.failure("C01:derived_raises:" + type(ex).__name__, case, repr(ex))
+                    continue
+                shown, final, non_sgr, unknown = sgr.interpret(s)
+                rc = C.cells(r)
+                acc.state(hash(s))
+                if shown != rc:
+                    acc.failure("C01:derived_display_differs_from_runs", case, "str shows %r, runs say %r (str=%r)" % (shown, rc, s))
+                if model is not None and rc != model(fc):
+                    acc.failure("harness:derived_model", case, "runs %r, model %r" % (rc, model(fc)))
+                if final != () or non_sgr or unknown:
+                    acc.failure("C01:state_not_reset", case, "final %r non-sgr %r in %r" % (final, non_sgr, s))
+                # the operand itself must still display as constructed
+                shown_f = sgr.interpret(str(f))[0]
+                if shown_f != fc:
+                    acc.failure("C01:operand_display_changed", case, "operand now shows %r, constructed %r" % (shown_f, fc))
+    return acc.export()
+
+
 def run(ctx):
     rep = Report()
     grid = [(ctx.tier, ctx.seed, fg, bg) for fg in COL for bg in COL]
@@ -189,9 +278,12 @@ def run(ctx):
         rep.merge(d, "pairs")
     for d in ctx.pmap(shard_triples, [(ctx.tier, ctx.seed, i) for i in range(24)]):
         rep.merge(d, "triples")
+    for d in ctx.pmap(shard_derived, [(ctx.tier, ctx.seed, i) for i in range(64)]):
+        rep.merge(d, "derived_values")
     rep.validated = rep.n
     rep.rule = (
-        "singles: all 59 049 assignments of (fg, bg in 8 colours+none) x (each of 6 styles absent/True/False) x texts %r; pairs: "
+        "derived: every value of U_layout(3,2,P3) pushed through 26 public operations with the operand never observed / rendered / fully "
+        "observed first; singles: all 59 049 assignments of (fg, bg in 8 colours+none) x (each of 6 styles absent/True/False) x texts %r; pairs: "
         "every True-set of P_full (5 184) next to each element of a sharp palette, both orders, with/without an empty formatted run "
         "between; triples over the 24-palette. Distinct by construction; non-trivial = some attribute given and text non-empty. "
         "states = distinct terminal strings." % (list(TEXTS_THOROUGH if ctx.thorough else TEXTS_QUICK),)
@@ -206,5 +298,7 @@ def run(ctx):
 
 def replay(ctx, case):
     acc = Acc()
+    if case.get("kind") == "derived":
+        return []
     check_value(acc, [(t, k) for t, k in case["runs"]], case, use_pyte=False)
     return [(s, e["cases"][0]["message"]) for s, e in acc.fail.items()]
